@@ -8,10 +8,7 @@ verus! {
 //@include spec/hash.rs
 //@enum BSVErrors @ src/errors/mod.rs
 //@enum SigningHash @ src/ecdsa/mod.rs clone copy partialeq eq
-pub trait AsRef<T: ?Sized> { spec fn bytes_v(&self) -> Seq<u8>; fn as_ref(&self) -> (r: &[u8]) ensures r@ == self.bytes_v(); }
-impl AsRef<[u8]> for &[u8] { open spec fn bytes_v(&self) -> Seq<u8> { self@ } #[verifier::external_body] fn as_ref(&self) -> (r: &[u8]) { unimplemented!() } }
-impl AsRef<[u8]> for Vec<u8> { open spec fn bytes_v(&self) -> Seq<u8> { self@ } #[verifier::external_body] fn as_ref(&self) -> (r: &[u8]) { unimplemented!() } }
-impl AsRef<[u8]> for &Vec<u8> { open spec fn bytes_v(&self) -> Seq<u8> { self@ } #[verifier::external_body] fn as_ref(&self) -> (r: &[u8]) { unimplemented!() } }
+//@include shims/asref.rs
 //@include shims/k256.rs
 pub trait ToHex { fn to_hex(&self) -> String; }
 impl ToHex for Vec<u8> {
